@@ -40,8 +40,8 @@ Proof. unfold packet_margin. destruct w_bits as [-> ->]. intros [_ H]. vm_comput
 
 Lemma w_representable : representable_prototype (ws_exts w_state) w_proto.
 Proof.
-  destruct w_part as (R1 & R2 & R3 & R4 & R5 & R6 & R7 & R8 & R9 & R10 & R11 & R12 & R13 & R14 & R15 & R16 & R17 & R18 & _).
-  exact (conj R1 (conj R2 (conj R3 (conj R4 (conj R5 (conj R6 (conj R7 (conj R8 (conj R9 (conj R10 (conj R11 (conj R12 (conj R13 (conj R14 (conj R15 (conj R16 (conj R17 (conj R18 (conj w_ext_ok w_fits))))))))))))))))))).
+  destruct w_part as (R1 & R2 & R3 & R4 & R5 & R6 & R7 & R8 & R9 & R10 & R11 & R12 & R13 & R14 & R15 & R16 & R17 & R18 & _ & R19).
+  exact (conj R1 (conj R2 (conj R3 (conj R4 (conj R5 (conj R6 (conj R7 (conj R8 (conj R9 (conj R10 (conj R11 (conj R12 (conj R13 (conj R14 (conj R15 (conj R16 (conj R17 (conj R18 (conj w_ext_ok (conj w_fits R19)))))))))))))))))))).
 Qed.
 
 Lemma w_i64 : proto_i64 w_proto.
